@@ -30,6 +30,11 @@ def run(chk):
     chk.rule("R07.8", "token agreement between renderers and parse_marker", min_instances=3)
     dom = mx.domain(str(chk.src))
     keys, ndistinct = mx.collect_universe(chk, limit=3000 if chk.tier == "quick" else 30000)
+    # value-first containment atoms ("win" in sys_platform): alone and inside compounds over other variables (no same-variable partner:
+    # their merging is the known C03/C13 finding); their text must keep the direction of the containment
+    vf = [("ME", "sys_platform", "in", "a", True), ("ME", "sys_platform", "not in", "b", True), ("ME", "os_name", "in", "ab", True)]
+    others = [("ME", "python_version", ">=", "3.8", False), ("ME", "extra", "==", "e1", False)]
+    keys = list(keys) + vf + [(k, a, b) for k in ("MultiMarker", "MarkerUnion") for a in vf[:2] for b in others]
     u = mx.phase_u(chk, keys, "c07")
     chk.rules["R07.1"]["instances"] += u["n"]
     bad = len(chk.violations) + len(chk.known_hits)
